@@ -104,6 +104,8 @@ def show_fact(f):
         s = "%s %s %s" % (show(a[1]), {"lt": "<", "le": "<=", "eq": "=="}[k], show(a[2]))
     elif k == "variant":
         s = "%s is %s" % (show(a[1]), a[2])
+    elif k == "variant_in":
+        s = "%s is %s" % (show(a[1]), "|".join(a[2]))
     else:
         s = show(a[1])
     return s if t else "not(" + s + ")"
@@ -216,29 +218,50 @@ class Flow:
         if len(ds) != 1:
             return []
         db, didx, _k = ds[0]
-        # straight line from the definition to the switch
-        cur = db
-        hops = 0
-        first = True
-        while True:
-            blk = b.blocks[cur]
-            stmts = blk.stmts[(didx + 1 if (first and didx != "term") else 0):] if not (first and didx == "term") else []
-            for s_ in stmts:
+        # the region between the definition and the switch (blocks on a path definition -> switch that does not re-enter either) must not
+        # call anything nor store through a projection: the operands of the definition then still have the values it read
+        tgt = n[1]
+        fwd, st_ = set(), ([b.blocks[db].term.target] if didx == "term" else ([db] if db == tgt else list(b.succs(db))))
+        if db == tgt:
+            fwd = set()
+        else:
+            while st_:
+                q = st_.pop()
+                if q is None or q in fwd or q == db:
+                    continue
+                fwd.add(q)
+                if q == tgt:
+                    continue
+                st_.extend(b.succs(q))
+        if db != tgt and tgt not in fwd:
+            return []
+        preds = b.preds()
+        bwd, st_ = set(), [tgt]
+        while st_:
+            q = st_.pop()
+            if q in bwd:
+                continue
+            bwd.add(q)
+            if q == db:
+                continue
+            st_.extend(preds.get(q, []))
+        region = (fwd & bwd) | {tgt}
+        if len(region) > 8:
+            return []
+        for q in region:
+            blk = b.blocks[q]
+            if q != tgt and blk.term.k in ("call", "drop", "assert") and q != db:
+                return []
+            for s_ in blk.stmts:
                 if s_.k != "assign" or s_.lhs[1]:
-                    return []          # a store through a projection may change an operand of the definition
-            if cur == n[1]:
-                break
-            if first and didx == "term":
-                nxt = blk.term.target
-            elif blk.term.k == "goto":
-                nxt = blk.term.target
-            else:
+                    return []
+        # statements of the defining block after the definition
+        if didx != "term":
+            for s_ in b.blocks[db].stmts[didx + 1:]:
+                if s_.k != "assign" or s_.lhs[1]:
+                    return []
+            if db != tgt and b.blocks[db].term.k in ("call", "drop", "assert"):
                 return []
-            first = False
-            hops += 1
-            if nxt is None or hops > 4:
-                return []
-            cur = nxt
         if didx == "term":
             ex = self.x.call_expr(db, b.blocks[db].term, self.x.depth)
         else:
@@ -355,10 +378,50 @@ class Flow:
         return [n for n in ch if n[0] == "e"]
 
     def facts_at(self, bb):
-        """facts that hold on every path from entry to block bb (by dominance of switch edges)"""
+        """facts that hold on every path from entry to block bb (by dominance of switch edges).  An or-pattern arm (`A | B => ..`) is entered by
+        several edges of one switch, none of which dominates it: the block then carries the fact `subject in {A, B}` (('variant_in', p, names))
+        and the negation of every other variant."""
         out = []
         for n in self.dom_edges(bb):
             out.extend(self.edge_facts(n))
+        out.extend(self._merged_arm_facts(bb))
+        return out
+
+    def _merged_arm_facts(self, bb):
+        if getattr(self, "_merged", None) is None:
+            self._merged = {}
+            preds = {}
+            for n in self.reachable_nodes():
+                for m in self.succ(n):
+                    preds.setdefault(m, []).append(n)
+            for m, ps in preds.items():
+                if m[0] != "b" or len(ps) < 2 or not all(p[0] == "e" for p in ps) or len(set(p[1] for p in ps)) != 1:
+                    continue
+                sw = ps[0][1]
+                t = self.body.blocks[sw].term
+                vt = self._variant_table(t.discr)
+                e = self.x.operand(t.discr)
+                if not vt or e[0] != "discr":
+                    continue
+                names = []
+                for p in ps:
+                    pos = [a[2] for (a, tr) in self.edge_facts(p) if a[0] == "variant" and tr]
+                    if len(pos) != 1:
+                        names = None
+                        break
+                    names.append(pos[0])
+                if not names:
+                    continue
+                subj = strip_plumbing(e[1])
+                fs = [(("variant_in", subj, tuple(sorted(set(names)))), True)]
+                for nm in vt.values():
+                    if nm not in names:
+                        fs.append((("variant", subj, nm), False))
+                self._merged[m[1]] = fs
+        out = []
+        for n in model.dom_chain(self.idom(), ("b", bb)):
+            if n[0] == "b" and n[1] in self._merged:
+                out.extend(self._merged[n[1]])
         return out
 
     def dominates(self, a, b):
